@@ -101,7 +101,7 @@ func checkChildren(w *World, r *Report, a *sqlAstInfo, rule string) {
 			reached := false
 
 			for _, ret := range returnsOf(fn) {
-				for _, res := range ret.Results {
+				for _, res := range retResults(ret) {
 					if fl.has(res) {
 						reached = true
 					}
@@ -667,7 +667,7 @@ func c15Gate(w *World, r *Report, sp *packages.Package) {
 				continue
 			}
 
-			for _, res := range ret.Results {
+			for _, res := range retResults(ret) {
 				if v, ok := constInt(res); ok && v == 200 {
 					bad = ret
 				}
